@@ -224,6 +224,12 @@ def reference(hist):
     out = []
     for line in hist:
         w = line.split()
+        if w == ["reuse"]:
+            # like `reset`; only the harness's way of creating objects changes (addresses are no observable)
+            table.clear()
+            spec = Spec(lambda l, s, k: table.get((l, s, k), []))
+            out.append("ok")
+            continue
         if w and w[0] == "script":
             ok = len(w) >= 4 and all(x.isdigit() and len(x) < 7 for x in w[1:4])
             if ok:
@@ -645,6 +651,8 @@ def count_hits(hists, hits):
             w = line.split()
             if w[0] == "script":
                 table[(int(w[1]), int(w[2]), int(w[3]))] = [parse_tok(t) for t in w[4:]]
+            elif w[0] == "reuse":
+                continue
             elif w[0] == "end":
                 for a in [("L", l) for l in range(NL)] + [("E", e) for e in range(NE)]:
                     spec.act(a)
@@ -736,6 +744,12 @@ def histories_for(ctx):
     rnd = [gen_program(rng, rng.choice([6, 10, 16, 24, 40])) for _ in range(nrand)]
     ncross = 1500 if quick else 20000
     rnd += [gen_cross(rng) for _ in range(ncross)]
+    # once more with the objects constructed in place (a re-created object gets exactly the address of its destroyed
+    # predecessor, which ASan's quarantine prevents for heap objects): every program that re-creates an object
+    recreating = [h for h in ex + rnd if any((" n" in l or " w" in l) if l.startswith("script") else l.startswith("new") for l in h)]
+    inplace = [["reuse"] + h for h in recreating] + [["reuse"] + h for h in hs]
+    ctx.cov["address_reuse"] = (f"{len(inplace)} programs run a second time with in-place construction "
+                                f"(all {len(recreating)} enumerated/random programs that re-create an object + the corpus)")
     depths = {}
     for h in rnd[:2000]:
         d = nesting_depth(h)
@@ -755,7 +769,7 @@ def histories_for(ctx):
                        "distinct_nontrivial = distinct observation streams among programs with >= 3 slot invocations")
     ctx.cov["exhaustive"] = False
     ctx.cov["exhaustive_scope"] = "; ".join(desc)
-    return hs + ex + rnd
+    return hs + ex + rnd + inplace
 
 
 def node_is_ghost(ctx):
